@@ -8,8 +8,9 @@ from harness.core import enc_str, dec_str
 PROPERTY = "C12"
 READY = True
 THEOREMS = [
-    "C12.marks", "C12.resize_exact", "C12.fit_exact", "C12.blanks_are_blanks", "C12.width_bounds", "C12.rectangular", "C12.separators",
-    "C12.cell_content", "C12.cell_default", "C12.full_when_fits", "C12.cell_len_exact", "C12.title_content", "C12.limits",
+    "C12.marks", "C12.resize_exact", "C12.fit_exact", "C12.blanks_are_blanks", "C12.width_bounds",
+    "C12.reach_width_inv", "C12.width_bounds_reachable", "C12.rectangular", "C12.separators",
+    "C12.cell_content", "C12.service_lines", "C12.cell_default", "C12.full_when_fits", "C12.cell_len_exact", "C12.title_content", "C12.limits",
     "C12.print_twice", "C12.interleaved", "C12.interleaved_run", "C12.snapshot_kept", "C12.fmt_obj_same", "C12.ctor_options", "C12.fmt_obj_ignores_printing", "C12.field_positions",
     "C12.setter_bounds", "C12.ctor_bounds", "C12.widths_faithful",
 ]
@@ -1835,21 +1836,33 @@ RULE = ("tables: 1-4 fields (one of them an enum in 40%), 0-12 records of mixed 
         "distinct by protocol line")
 TRUSTED = ["str() of int/float/bool/None (the float text and its exact ratio travel as data)",
            "str.isspace() of the running Python (whitespace set generated into Gen/C12.lean)"]
-ASSUMPTIONS = ["cell values contain no line break; at least one visible column (both out of the property's domain)",
+ASSUMPTIONS = ["no text that goes into a printed line contains a line break: neither the str() of a cell value, nor the "
+               "header, the footer, the name an enum gives a value (or its missing-value name), nor the tag a user-written "
+               "field type adds; e.g. PPTable(..., header='x\\ny') prints two ragged lines. (Field TITLES may contain "
+               "line breaks: they are split into title lines, modelled.) The model counts characters of a List Char, so its "
+               "theorems hold there too, but 'line' then no longer means what the property means; such inputs are not "
+               "generated. At least one visible column. (Both out of the property's domain.)",
                "whether a value equal to an enum key but of another type (True for key 1) is a known value is not said "
                "by the property: the oracle accepts both names; the model follows the code (dict lookup: known)",
                "widths in format strings use ASCII digits (int() also accepts other Unicode decimal digits)"]
 
 LEVEL_TEXT = ("Kernel-checked on the model; every theorem about a rendering is conditional on `render t = .ok ...` (there "
-              "is no totality theorem: that a well-formed table prints at all rests on the tie). "
+              "is no totality theorem: that a well-formed table prints at all rests on the tie), and 'line' means what the "
+              "property means only when no text that goes into a line (cell value, header, footer, enum value name, type "
+              "tag) contains a line break (ASSUMPTIONS). "
               "fit_to_width/resize_chunks_list give exactly the asked width and only pad (left/right/centre) or "
               "cut-and-dot; resize is the resize_chunks_list of the CHText model of C08 (fit_exact, resize_exact, "
               "blanks_are_blanks); every printed line has length sum(widths)+ncols+1 (rectangular); title and record "
               "lines carry '|' under every '+' of the border, framed lines start and end with '|' (separators); the "
               "characters between two separators are the fitted text of that record's own field / of the field's own "
               "title line (cell_content, cell_default, title_content); negotiated widths satisfy w <= max always and "
-              "min <= w when min <= max, in every reachable state (width_bounds; with contradictory bounds min > max the "
-              "maximum wins); on the first printing every column is at least as wide as the negotiation length of "
+              "min <= w when min <= max (width_bounds, under the hypothesis that widths already present are inside the "
+              "bounds; reach_width_inv proves that hypothesis for every state in Table.Reach - constructor with or without "
+              "fields=, column objects, fmt_obj= of a reachable table, then any order of print / table.fmt = s / "
+              "re-construction / set_limits / remove_columns - and width_bounds_reachable is the statement without "
+              "hypothesis; with contradictory bounds min > max the maximum wins); the skipped-records line is '|' + "
+              "'... <n> records skipped' + '|' with n the announced number of `limits`, padded to the table's inner width "
+              "or cut-and-dotted when the table is narrower, a break line is '|' blanks '|' (service_lines); on the first printing every column is at least as wide as the negotiation length of "
               "every visible cell and of the title, up to max (full_when_fits) - for the default and user-written "
               "field types that length is the printed text's length (cell_len_exact), so a value that fits max is "
               "never cut; for enum columns the code computes the length separately ('val' = widest key) and a cell "
